@@ -21,24 +21,38 @@ namespace BV
 /-- `sep.join(content.split(sep)) == content` for every non-empty separator and every content:
     line endings (LF, CRLF, CR, mixed), final newline or not, anything between them survives -/
 theorem C04_join_split (sep s : Str) (h : sep ≠ []) : join sep (splitOn sep s) = s := by
-  sorry
+  unfold splitOn
+  rw [join_splitOnF sep h _ _ _ (Nat.lt_succ_self _)]
+  rfl
 
 /-- the detected separator is one of the three, and it is non-empty -/
 theorem C04_sep_detect (s : Str) :
     (detectLineSep s = "\r\n".toList ∨ detectLineSep s = "\r".toList ∨ detectLineSep s = "\n".toList)
     ∧ detectLineSep s ≠ [] := by
-  sorry
+  unfold detectLineSep
+  split
+  · exact ⟨.inl rfl, by decide⟩
+  · split
+    · exact ⟨.inr (.inl rfl), by decide⟩
+    · exact ⟨.inr (.inr rfl), by decide⟩
 
 /-- a rewrite keeps the number of lines … -/
 theorem C04_line_count (pats : List CPat) (v : VInfo) (old new : List Str)
     (h : rewriteLines pats v old = .ok new) : new.length = old.length := by
-  sorry
+  obtain ⟨ms, _, happ, _⟩ := rewriteLines_ok h
+  exact (applyMatches_ok v _ _ _ happ).2.1
 
 /-- … and every line without a surviving match is untouched -/
 theorem C04_unmatched_lines (pats : List CPat) (v : VInfo) (old new : List Str) (ms : List PMatch)
     (hm : iterMatches old pats = some ms) (h : rewriteLines pats v old = .ok new)
     (i : Nat) (hi : ∀ m ∈ ms, m.lineno ≠ i) : new[i]? = old[i]? := by
-  sorry
+  obtain ⟨-, -, h3⟩ := rewriteLines_line hm h
+  have hnil : lineMatches ms i = [] := by
+    rw [List.eq_nil_iff_forall_not_mem]
+    intro m hmem
+    exact hi m (mem_lineMatches.1 hmem).1 (mem_lineMatches.1 hmem).2
+  rw [h3 i, hnil]
+  cases old[i]? <;> rfl
 
 /-- on a line with exactly one surviving match, the text before and after the span is kept
     verbatim and the span is replaced by the rendered pattern -/
@@ -48,19 +62,44 @@ theorem C04_single_span (pats : List CPat) (v : VInfo) (old new : List Str) (ms 
     (line : Str) (hl : old[m.lineno]? = some line) :
     ∃ repl, formatVersion v (normalizePattern m.pat.vp m.pat.raw) = .ok repl ∧
       new[m.lineno]? = some (line.take m.start ++ repl ++ line.drop m.stop) := by
-  sorry
+  obtain ⟨h1, -, h3⟩ := rewriteLines_line hm h
+  refine ⟨replOfL v m, h1 m hmem, ?_⟩
+  rw [h3 m.lineno, hl, lineMatches_single hm m hmem honly]
+  rfl
 
 /-- whole file: if no line has a match to replace (e.g. a file whose occurrences already carry
     the text), the content is returned unchanged, whatever its line endings -/
 theorem C04_content_identity (pats : List CPat) (v : VInfo) (s s' : Str)
     (hm : iterMatches (splitOn (detectLineSep s) s) pats = some [])
     (h : rewriteContent pats v s = .ok s') : s' = s := by
-  sorry
+  unfold rewriteContent at h
+  simp only at h
+  split at h
+  · cases h
+  · rename_i newLines hnl
+    cases h
+    obtain ⟨ms, hms, happ, -⟩ := rewriteLines_ok hnl
+    rw [hm] at hms
+    cases hms
+    have : newLines = splitOn (detectLineSep s) s := by
+      simpa [sortMatches, applyMatches] using happ.symm
+    rw [this]
+    exact C04_join_split _ _ (C04_sep_detect s).2
 
 /-- files not named in the configuration are never written, whether the update succeeds or not -/
 theorem C04_other_files (fs : FS) (fps : List (Str × List CPat)) (v : VInfo) (p : Str)
     (hp : ∀ fp ∈ fps, fp.1 ≠ p) : lookup p (rewriteFiles fs fps v).1 = lookup p fs := by
-  sorry
+  unfold rewriteFiles
+  split
+  · rfl
+  · rename_i ws hws
+    apply lookup_foldl_write
+    intro w hw
+    have hpaths := planWrites_paths fs v fps ws hws
+    have : w.1 ∈ fps.map (·.1) := hpaths ▸ List.mem_map.2 ⟨w, hw, rfl⟩
+    obtain ⟨fp, hfp, hfe⟩ := List.mem_map.1 this
+    rw [← hfe]
+    exact hp fp hfp
 
 /-! non-vacuity / concrete instances (tests) -/
 example : join "\r\n".toList (splitOn "\r\n".toList "a\r\nb\nc\r\n".toList) = "a\r\nb\nc\r\n".toList := by decide
